@@ -1,5 +1,6 @@
 CONSTANTS MaxOps = 3
           ResyncOnChange = TRUE
+          LintMemo = FALSE
 INIT JInit
 NEXT JNext
 INVARIANTS EmitCase
